@@ -89,7 +89,7 @@ Definition io_call (f a : pyval) : PyLib.res :=
   | _ => Exc TypeError
   end.
 Lemma io_agrees : agrees_with_sir_call io_call orc tbl.
-Proof. intros s a Hin. cbn in Hin. repeat (destruct Hin as [<-|Hin]; [reflexivity|]). destruct Hin. Qed.
+Proof. intros s a Hin _. cbn in Hin. repeat (destruct Hin as [<-|Hin]; [reflexivity|]). destruct Hin. Qed.
 Lemma io_ip (v6 : bool) a l undo : same_static (if v6 then t6 else t4) a ->
   io_call (VFun (of_string "anonymize_ip_addr")) (VList [eip v6 a; vstr l; VBool undo]) =
   match anonymize_ip_line v6 undo a l with Done (a', l') => Normal (VTuple [vstr l'; eip v6 a']) | Raised _ => Exc (ValueError []) end.
